@@ -116,9 +116,13 @@ def record_abs(tid, inst, cf, ops, unique, want_aux):
 
 
 # ------------------------------------------------------------------ instance sources
-def behaviours_from_tlc(chk, cfgname, seed, timeout=3600):
-    r = run_tlc('LatticeMC', cfgname, workers=16, timeout=timeout, seed=seed)
-    chk.tlc(r, f'LatticeMC {cfgname}: instances x histories enumerated for replay')
+def behaviours_from_tlc(chk, cfgname, seed, timeout=3600, simulate=None):
+    if simulate:
+        r = run_tlc('LatticeMC', cfgname, workers=8, timeout=timeout, seed=seed, simulate=simulate, depth=7)
+        chk.tlc(r, f'LatticeMC {cfgname} -simulate {simulate}: deep random behaviours for replay')
+    else:
+        r = run_tlc('LatticeMC', cfgname, workers=16, timeout=timeout, seed=seed)
+        chk.tlc(r, f'LatticeMC {cfgname}: instances x histories enumerated for replay')
     # keep maximal histories only (a state prints the history that led to it; prefixes are other states)
     groups = {}
     for b in r.json:
@@ -365,6 +369,11 @@ def run(chk):
         tid += 1
         cf0 = dict(cf0, labels=['id', 'zero', 'z2', 'str', 'z3', 'neg', 'zero', 'z2'][tid % 8])
         runs.append(record_abs(tid, inst, cf0, ops, unique=(tid % 3 == 0), want_aux=plan['aux']))
+    if thorough and pid in ('C02', 'C03', 'C04', 'C05', 'C07', 'C08', 'C09'):
+        for inst, cf0, ops, hist in behaviours_from_tlc(chk, 'LatticeMC_SIMe.cfg', chk.seed + 1, timeout=1500, simulate='num=40'):
+            tid += 1
+            cf0 = dict(cf0, labels=['id', 'zero', 'z2', 'str'][tid % 4])
+            runs.append(record_abs(tid, inst, cf0, ops, unique=(tid % 3 == 0), want_aux=plan['aux']))
     n_tlc = len(runs)
     for _ in range(plan['rnd'][thorough]):
         if 'ne' in plan['allow'] and rng.random() < 0.3:
